@@ -104,10 +104,17 @@ def comparators(P, R, rule='C19.ARITH.1'):
         for ex in allex:
             if True:
                 for x in walk(ex):
-                    if x.get('k') == 'un' and x['op'] == '*' and is_var(x['e']) and x['e'].get('sc') == 'local':
-                        t = x['e'].get('t', '')
-                        pointee = t[:t.rfind('*')].replace('const', '').strip() if '*' in t else t
-                        seen_t.add(pointee)
+                    # `*a` with a local pointer, `*(const int *)a_` with a cast parameter, `a[0]`
+                    e2 = None
+                    if x.get('k') == 'un' and x['op'] == '*' and is_var(x['e']):
+                        e2 = x['e']
+                    if x.get('k') == 'idx' and is_var(x.get('base')) and const_of(x.get('index')) == 0:
+                        e2 = x['base']
+                    if e2 is not None:
+                        t = e2.get('castto') or e2.get('t', '')
+                        if '*' in t:
+                            pointee = t[:t.rfind('*')].replace('const', '').strip()
+                            seen_t.add(pointee)
         R.ob(rule, bool(seen_t) and seen_t <= {'int'}, ci, 'set_compare_int reads its keys as int (reads them as %s)' % sorted(seen_t), key='int-keys')
     R.floor(rule, 4, 'comparator returns')
 
